@@ -306,6 +306,9 @@ func ToAllocation(protoAlloc *Allocation) (alloc *channel.Allocation, err error)
 		}
 	}
 	alloc.Balances = ToBalances(protoAlloc.GetBalances())
+	if err = alloc.Valid(); err != nil {
+		return nil, errors.WithMessage(err, "invalid allocation")
+	}
 	return alloc, nil
 }
 
